@@ -33,6 +33,12 @@ def check(run, prog, tier):
     from . import memorule
     memorule.check(run, prog, "C05-U12", ['quantarhei.qm.hilbertspace.hamiltonian.Hamiltonian', 'quantarhei.core.frequency.FrequencyAxis', 'quantarhei.builders.modes.Mode', 'quantarhei.core.managers.Manager'],
                    "the value read under another context is then not the conversion of the stored one")
+    # functions on a frequency axis: what they keep (interpolation splines) is kept in terms of internal values; only the
+    # units obligation of the stored-result analysis is decided here (the others belong to C09-G)
+    from ..report import RuleProxy
+    memorule.check(RuleProxy(run, "C05-U12", keep=lambda construct, key: key.endswith(":units") or key == "scanned"), prog, "C05-U12",
+                   ['quantarhei.core.dfunction.DFunction'],
+                   "the value of the function at a point then depends on the units in which it was first asked for")
     run.rule("C05-U1", "only the context managers, Manager and the public set_current_units switch units", minimum=4)
     run.rule("C05-U2", "units context protocol: backup, switch, restore, counters", minimum=12)
     run.rule("C05-U3", "units contexts are only constructed for 'with'", minimum=30)
